@@ -487,6 +487,41 @@ func Generate(r *rand.Rand, profile string, concurrent bool, av Avoid) *Plan {
 		ops = append(ops, frag...)
 		p.Ops = append(ops, p.Ops[at:]...)
 	}
+	// Directed fragment: the same channel refreshed two or three times in a row
+	// with no response in between (all its calls run into their deadline), then
+	// one more round whose wait is a small multiple of the detection window: the
+	// only histories in which the backoff exponent exceeds 1.
+	if profile == "refresh" && !concurrent && p.Cfg.UMs > 0 && p.Cfg.UCalls > 0 && r.IntN(3) == 0 && len(p.Ops) > 4 {
+		k := r.IntN(nKeys)
+		n := int(p.Cfg.UCalls)
+		frag := []Op{
+			{K: OpConn, A: 0, B: ConnProgress}, {K: OpConn, A: 0, B: ConnProgress},
+			{K: OpConn, A: 1, B: ConnProgress}, {K: OpConn, A: 1, B: ConnProgress},
+			{K: OpPick, B: MBind, Keys: []int{k}},
+			{K: OpDone, A: -1, B: OutOK, Keys: []int{k}},
+		}
+		rounds := 2 + r.IntN(2)
+		for j := 0; j <= rounds; j++ {
+			for c := 0; c < n; c++ {
+				frag = append(frag, Op{K: OpPick, B: MBound, Keys: []int{k}, D: 1, E: 1})
+			}
+			wait := int(p.Cfg.UMs)<<uint(j) + []int{1, 1, 2, 5}[r.IntN(4)]
+			if j == rounds {
+				wait = int(p.Cfg.UMs)*[]int{1, 2, 3, 4, 5, 6, 8, 9, 16}[r.IntN(9)] + []int{-1, 0, 1}[r.IntN(3)]
+			}
+			frag = append(frag, Op{K: OpAdvance, E: wait})
+			for c := 0; c < n; c++ {
+				frag = append(frag, Op{K: OpDone, A: -1, B: OutClientDE})
+			}
+			if j < rounds {
+				frag = append(frag, Op{K: OpConn, A: -1, B: ConnProgress}, Op{K: OpConn, A: -1, B: ConnProgress})
+			}
+		}
+		at := 3 + r.IntN(len(p.Ops)-3)
+		ops := append([]Op{}, p.Ops[:at]...)
+		ops = append(ops, frag...)
+		p.Ops = append(ops, p.Ops[at:]...)
+	}
 	// Directed concurrent fragment: two BINDs for the same key in flight on
 	// different channels whose completion callbacks overlap, then keyed calls.
 	if concurrent && (profile == "affinity" || profile == "fallback" || profile == "chaos") && r.IntN(3) == 0 && len(p.Ops) > 4 {
